@@ -3301,15 +3301,20 @@ The what argument tells us what sort of state is expected (allowed values are de
 
             removedDirs[dir] = 1
 
-    def _remove(self, productName, versionName, recursive, checkRecursive, topProduct, topVersion, userInfo):
+    def _remove(self, productName, versionName, recursive, checkRecursive, topProduct, topVersion, userInfo,
+                seen=None):
         """The workhorse for remove"""
+
+        if seen is None:
+            seen = set()                # products whose dependencies have been collected (ends dependency cycles)
 
         if productName == hooks.config.Eups.defaultProduct.get("name", "toolchain"):
             return []
 
         product = self.getProduct(productName, versionName)  # can raise ProductNotFound
         deps = [[product, False, 0]]
-        if recursive:
+        if recursive and (product.name, product.version) not in seen:
+            seen.add((product.name, product.version))
             tbl = product.getTable()
             if tbl:
                 deps += tbl.dependencies(self)
@@ -3341,7 +3346,7 @@ The what argument tells us what sort of state is expected (allowed values are de
             if recursive:
                 productsToRemove += self._remove(product.name, product.version, (product.name != productName),
                                                  checkRecursive, topProduct=topProduct, topVersion=topVersion,
-                                                 userInfo=userInfo)
+                                                 userInfo=userInfo, seen=seen)
 
             productsToRemove += [product]
 
